@@ -19,6 +19,8 @@ def make_packages(seed, npk, per_file, files_per_pkg=1, malformed_frac=0.0, opts
             for _ in range(per_file):
                 decls.append(declgen.gen_decl(rnd, k, opts))
                 k += 1
+                if rnd.random() < 0.3 and decls[-1]["ret"] != "%sA9" % decls[-1]["prefix"]:
+                    decls.append(declgen.twin_decl(rnd, decls[-1]))
             files.append(dict(fname="%s.go" % "abcdef"[fi], decls=decls))
         pkgs.append(dict(name="p%d" % pi, files=files, kind="valid"))
     # directed reproducers of the open concurrency findings: one package each (keeps `ctx` named ctx)
@@ -37,11 +39,11 @@ def make_malformed_packages(seed, count):
     pkgs = []
     k = 0
     tries = 0
-    kinds = ["cycle", "dup", "orphan", "dupfield"]
+    kinds = ["cycle", "dup", "orphan", "dupfield", "cycle_mv", "dup_mv"]
     while len(pkgs) < count and tries < count * 20:
         tries += 1
-        base = declgen.gen_decl(rnd, 5000 + k, dict(n=rnd.choice([2, 3, 4, 5, 6, 8])))
-        kind = kinds[len(pkgs) % 4]
+        kind = kinds[len(pkgs) % 6]
+        base = declgen.gen_decl(rnd, 5000 + k, dict(n=rnd.choice([2, 3, 4, 5, 6, 8]), bindmv=kind.endswith("_mv")))
         d = declgen.mutate_malformed(rnd, base, kind)
         if d is None:
             continue
@@ -513,14 +515,14 @@ def stage(seed, tier, want_malformed=True):
     cpath = os.path.join(vlib.CACHE, "stage", key + ".json")
     if os.path.exists(cpath) and not os.environ.get("VERIF_NOCACHE"):
         return json.load(open(cpath))
-    res = _stage(seed, tier, want_malformed)
+    res = _stage(seed, tier, want_malformed, key)
     os.makedirs(os.path.dirname(cpath), exist_ok=True)
     with open(cpath, "w") as f:
         json.dump(res, f)
     return res
 
 
-def _stage(seed, tier, want_malformed):
+def _stage(seed, tier, want_malformed, key="S-x"):
     kessoku = vlib.build_kessoku()
     bandparse = vlib.build_tool("bandparse")
     mod = vlib.new_scratch_module("s")
@@ -647,7 +649,7 @@ def _stage(seed, tier, want_malformed):
         if r.get("spec_code"):
             r["model_mismatch"] = True
             r["mismatch_kinds"].append("value")
-    keep = os.path.join(vlib.CACHE, "stage", "S-src-%s-%s" % (seed, tier))
+    keep = os.path.join(vlib.CACHE, "stage", key + "-src")
     shutil.rmtree(keep, ignore_errors=True)
     shutil.copytree(mod, keep, ignore=shutil.ignore_patterns("*.vo", "*.glob", "*.aux", "*.vok", "*.vos"))
     return dict(seed=seed, tier=tier, coq_ok=ok, coq_log=log, n_cases=len(cases), records=records, srcdir=keep,
